@@ -1147,7 +1147,55 @@ class Evaluator:
             kind, d = collected[0]
             self.may_raise.append((f, kind, d + ' (in comprehension)'))
 
+    def struct_dictcomp(self, n):
+        """{K(k): F(v) for k, v in value.items()} over a dict-shaped value tree, F a recursive function with a spec:
+        the entry-lifting of the spec (keys kept; a key-checking wrapper K only contributes its raise condition)."""
+        if len(n.generators) != 1:
+            return None
+        g = n.generators[0]
+        src = self.struct_source(g.iter)
+        if src is None:
+            return None
+        children, shape, via, ok = src
+        if shape != 'ents' or via != 'items' or g.ifs:
+            raise Unsupported('dict comprehension over a value tree must iterate .items() without filters')
+        self.may_raise.append((ok, 'TypeError', 'items() of a non-dict value'))
+        tgt = g.target
+        if not (isinstance(tgt, ast.Tuple) and len(tgt.elts) == 2 and all(isinstance(e, ast.Name) for e in tgt.elts)):
+            raise Unsupported('items() target must be (k, v)')
+        keyvar, itemvar = tgt.elts[0].id, tgt.elts[1].id
+        k = n.key
+        if isinstance(k, ast.Name) and k.id == keyvar:
+            pass
+        elif isinstance(k, ast.Call) and isinstance(k.func, ast.Name) and k.args and isinstance(k.args[0], ast.Name) and k.args[0].id == keyvar \
+                and getattr(self.eng.resolve_function(k.func.id), 'key_check', False):
+            pass
+        else:
+            raise Unsupported('dict comprehension key over a value tree must be the key itself (optionally through a key check)')
+        v = n.value
+        c = None
+        if isinstance(v, ast.Call):
+            f = v.func
+            c = self.eng.resolve_function(f.id) if isinstance(f, ast.Name) else None
+            if c is None and isinstance(f, ast.Attribute):
+                try:
+                    c = self.eng.method_contract_for(self.ev(f.value), f.attr)
+                except (KeyError, Unsupported):
+                    c = None
+        if c is None or not c.spec or not any(isinstance(a, ast.Name) and a.id == itemvar for a in list(v.args) + [kw.value for kw in v.keywords]):
+            raise Unsupported('dict comprehension value over a value tree must be a spec function of the item')
+        lifted = c.lift.get('map_ents')
+        if not lifted:
+            raise Unsupported(f'{c.key} declares no map_ents lifting')
+        self.lift_requires(c, children, 'ents')
+        self.lift_raises(c, children, 'ents')
+        self.eng.count_use(c)
+        return SV(U('PE'), self.eng.rec_function(lifted)(children.z))
+
     def ev_DictComp(self, n):
+        sd = self.struct_dictcomp(n)
+        if sd is not None:
+            return sd
         if len(n.generators) != 1:
             raise Unsupported('nested dict comprehension')
         g = n.generators[0]
@@ -1592,7 +1640,20 @@ class CallEval:
         return self._as_set(v, 'list' if v.t.k == 'list' else 'set')
 
     fn_sorted = fn_list
-    fn_tuple = fn_list
+
+    def fn_tuple(self, n):
+        if n.args:
+            v = self.e.ev(n.args[0])
+            if v.t == U('PL'):
+                return SV(U('PV'), self.ctx.dt_info['PTuple'][2](v.z))
+            return self._as_set(v, 'list' if v.t.k == 'list' else 'set')
+        return self.fn_list(n)
+
+    def fn_frozendict(self, n):
+        v = self.e.ev(n.args[0])
+        if v.t == U('PE'):
+            return SV(U('PV'), self.ctx.dt_info['PFrozen'][2](v.z))
+        raise Unsupported(f'frozendict({v.t})')
 
     def fn_dict(self, n):
         if n.args or not n.keywords:
